@@ -495,7 +495,7 @@ def rule_K5_rust(ctx, F):
                 ok = x == ("path", lcall, (str(i - 12),))
                 want = "load_counters(counter, increment_counter).%d" % (i - 12)
             elif i == 14:
-                ok = x == ("call", set1, (("cast", ("const", "BLOCK_LEN", 64), "u32"),))
+                ok = unify(("call", set1, (("cast", ("const", "BLOCK_LEN", 64), "u32"),)), x) is not None
                 want = "set1(BLOCK_LEN as u32)"
             else:
                 a = x[2][0] if x[0] == "call" and x[1] == set1 else ("?",)
@@ -511,7 +511,7 @@ def rule_K5_rust(ctx, F):
         if fn is None:
             raise MissingAnchor(name)
         got = val(fn.expr_local(0))
-        ctx.ob(got == want, "helper:%s" % name, fn.loc, "%s returns %s" % (name, show(got)[:80]))
+        ctx.ob(unify(want, got) is not None, "helper:%s" % name, fn.loc, "%s returns %s" % (name, show(got)[:80]))
     for mod, setter, intr, lanes in (("sse2", "set4", "_mm_setr_epi32", 4), ("sse41", "set4", "_mm_setr_epi32", 4), ("avx2", "set8", "_mm256_setr_epi32", 8)):
         fn = F.fn("%s::%s" % (mod, setter))
         if fn is None:
